@@ -36,6 +36,13 @@ def _hook(ev, e, n, obj, args_e, P, fr):
             ev.assign(a['e'], name_of(ev.prog, o), P, fr, e.get('l'))
             P.events.append(('call', (e.get('q'), (), o, e.get('sig'), True), e.get('l')))
             return terms.num(0)
+    if e.get('inrepo') and not e.get('rec') and n not in ('masa_map',) and args_e:
+        # a free predicate over strings (e.g. a matcher comparing the requested name with a candidate's name) is kept as an
+        # uninterpreted predicate: its string loops are not what the ownership rules are about
+        cal = ev.prog.by_q.get(e.get('q'), [])
+        if len(cal) == 1 and str(cal[0].ret).replace('const ', '') in ('bool', 'int') and cal[0].params and \
+                all('basic_string<char' in str(p_.get('t', '')) and (str(p_['t']).startswith('const ') or not str(p_['t']).endswith('&')) for p_ in cal[0].params):
+            return ('call', 'pred:' + n, tuple(ev.E(a, P, fr) for a in args_e))
     if n == 'masa_map' and len(args_e) == 1 and e.get('inrepo'):
         a = strip(args_e[0], casts=True)
         if a.get('k') == 'un' and a['op'] == '&':
@@ -259,7 +266,7 @@ def check_init(prog, im, scalar):
     E, facts = analyse(prog, im, scalar)
     key_param = ('sym', im.params[0]['n'])
     name_param = ('sym', im.params[1]['n']) if len(im.params) > 1 else None
-    res = {k: [] for k in ('candidates', 'one-install', 'key', 'selected', 'old-entry', 'dangling', 'double', 'name-match', 'fatal-registers', 'raw-name', 'complete')}
+    res = {k: [] for k in ('candidates', 'one-install', 'key', 'selected', 'old-entry', 'dangling', 'double', 'name-match', 'name-match-undecided', 'fatal-registers', 'raw-name', 'complete')}
     n_created = set()
     n_ret = 0
     for F in facts:
@@ -275,6 +282,11 @@ def check_init(prog, im, scalar):
             for c in F.conds:
                 if name_param not in list(terms.subterms(c)):
                     continue
+                c0 = c
+                while c0[0] == 'not':
+                    c0 = c0[1]
+                if c0[0] == 'call' and c0[1].startswith('pred:') and any(x[0] == 'str' or (x[0] == 'call' and x[1] == 'name_of') for x in c0[2]):
+                    continue        # an uninterpreted matcher applied to the name and a candidate's name: see name-match
                 eq = equality_fact(c) or equality_fact(('not', c))
                 if eq is not None and mm in eq and all((x == mm) or (name_param not in list(terms.subterms(x))) for x in eq):
                     continue
@@ -343,7 +355,11 @@ def check_init(prog, im, scalar):
             nm = name_of(prog, v)
             want = {nm, ('call', 'masa_map', (name_param,))}
             eqs = [equality_fact(c) for c in F.conds]
-            if not any(e_ is not None and set(e_) == want for e_ in eqs):
+            preds = [c for c in F.conds if c[0] == 'call' and c[1].startswith('pred:') and nm in c[2] and
+                     any(x == name_param or x == ('call', 'masa_map', (name_param,)) for x in c[2])]
+            if preds and not any(e_ is not None and set(e_) == want for e_ in eqs):
+                res['name-match-undecided'].append('%s: the candidate is selected by %s(...), a string predicate this check does not interpret' % (loc, preds[0][1][5:]))
+            elif not any(e_ is not None and set(e_) == want for e_ in eqs):
                 got = [e_ for e_ in eqs if e_ is not None and nm in e_]
                 res['name-match'].append('%s: the candidate is installed %s' % (loc, ('because its name equals `%s`, not masa_map(%s)' % (
                     terms.fmt([x for x in got[0] if x != nm][0])[:60], name_param[1])) if got else 'without comparing its name with masa_map(%s)' % name_param[1]))
